@@ -427,16 +427,24 @@ def histories(ctx):
     return hs
 
 
-def close_counts(ctx):
+def close_counts(ctx, only=None):
     """Count the close() calls the library makes on a handed-over descriptor (the probe binary interposes
-    `close`): exactly one once the action is removed or the registration is refused, none while registered."""
+    `close`): exactly one once the action is removed or the registration is refused, none while registered -
+    also when the reader has gone away and deliveries keep failing with EPIPE.
+    only = predicate on the case name (C01 looks at the cases with deliveries only)."""
     rc, out, _ = common.sh([common.bin_path('p_closecount')], timeout=120)
     rows = [l.split() for l in out.split('\n') if len(l.split()) == 4]
-    ctx.correspondence('close-count probe ran (p_closecount)', rc == 0 and len(rows) >= 8, out[-400:] if rc else None)
+    ctx.correspondence('close-count probe ran (p_closecount)', rc == 0 and len(rows) >= 14, out[-400:] if rc else None)
     for name, got, want, shape in rows:
+        if only is not None and not only(name):
+            continue
         ctx.evaluations += 1
         ctx.distinct.add(('close-count', name))
-        if got != want:
+        if name.endswith('_still_open') and got != want:
+            ctx.violation({'close_count': name}, 'case %s: the descriptor of a STILL REGISTERED self-pipe action is no longer open after two deliveries whose writes failed '
+                          '(reader gone): it was released inside a signal handler, not by the thread that removes the action' % name,
+                          {'case': name, 'probe_output': out, 'replay': 'harness/target/debug/p_closecount'})
+        elif got != want:
             ctx.violation({'close_count': name}, 'descriptor handed over in case %s was closed %s time(s) by the library, expected %s '
                           '(closed exactly once - when the action is removed or the registration is rejected)' % (name, got, want),
                           {'case': name, 'probe_output': out, 'replay': 'harness/target/debug/p_closecount'})
